@@ -7,7 +7,7 @@
    On the unchanged tree C02_no_headroom and C02_group were refuted by corpus/C02/exact_fixed_F2_F3.json
    (fix commits ccb79d8, fcfd05e). *)
 From Coq Require Import QArith List.
-From Verif Require Import model.Dist proofs.DistFacts proofs.DistBounds proofs.DistTop proofs.DistWitness.
+From Verif Require Import gen.DistConst model.Dist proofs.DistFacts proofs.DistBounds proofs.DistTop proofs.DistWitness.
 Import ListNotations.
 Open Scope Q_scope.
 
@@ -49,6 +49,12 @@ Theorem C02_no_headroom : forall powf gs p r gr g,
   forall a, In a (gr_sp gr) -> snd a == 0.
 Proof. exact distribute_no_headroom. Qed.
 
+(* the exponent the BatteryManager passes to the algorithm (constant translated from /repo on every run) is 1,
+   for which pow(x) = x and pow(0) = 0: the hypothesis of C02_no_headroom holds for the shipped configuration *)
+Theorem C02_manager_exponent :
+  0 < gen.DistConst.dist_manager_exponent /\ gen.DistConst.dist_manager_exponent == 1 /\ idf 0 == 0.
+Proof. exact manager_exponent_positive. Qed.
+
 (* every battery group and every inverter of the input appears in the result exactly once *)
 Theorem C02_every_component_has_a_setpoint : forall powf gs p r,
   czero p = false -> distribute powf gs p = Some r ->
@@ -67,5 +73,6 @@ Print Assumptions C02_inverter_partial.
 Print Assumptions C02_group_partial.
 Print Assumptions C02_group_refuted.
 Print Assumptions C02_no_headroom.
+Print Assumptions C02_manager_exponent.
 Print Assumptions C02_every_component_has_a_setpoint.
 Print Assumptions C02_nonvacuous.
